@@ -4,7 +4,7 @@ import vlib
 
 LEVEL = "model_checking"
 C07_SIGS = ("batch-results-differ", "batch-allok", "batch-never-returns")
-C12_SIGS = ("batch-region-order", "batch-call-executed-twice", "batch-rejected")
+C12_SIGS = ("batch-region-order", "batch-call-executed-twice", "batch-call-not-executed-once", "batch-rejected")
 
 
 def run_sendbatch(chk, limit, thorough):
@@ -31,10 +31,10 @@ def run_sendbatch(chk, limit, thorough):
         v = vlib.classify_panic(t["out"])
         if v:
             return dict(scenarios=0, distinct=0, samples=[], violations=[v], extra={}), r
-        raise vlib.MachineryError("SendBatch driver produced no result:\n" + t["out"][-3000:])
+        raise vlib.driver_failed("SendBatch driver produced no result", t["out"])
     res = json.load(open(resf))
     if t["rc"] != 0 and not res.get("violations"):
-        raise vlib.MachineryError("SendBatch driver failed:\n" + t["out"][-3000:])
+        raise vlib.driver_failed("SendBatch driver failed", t["out"])
     return res, r
 
 
